@@ -890,6 +890,12 @@ static int parse_data(vnacal_load_state_t *vlsp, const vnacal_layout_t *vlp,
 		    if (parse_double(vlsp, value, &frequency) == -1) {
 			return -1;
 		    }
+		    if (!(frequency >= 0.0) || isinf(frequency)) {
+			_vnacal_error(vcp, VNAERR_SYNTAX, "%s (line %ld) error: "
+				"frequency must be a non-negative number",
+				vcp->vc_filename, value->start_mark.line + 1);
+			return -1;
+		    }
 		    break;
 		}
 		break;
